@@ -113,25 +113,32 @@ func runC08(w *World) {
 	nw := 2 + w.knob("writers", 2)
 	for i := 0; i < nw; i++ {
 		i := i
-		style := w.knob(fmt.Sprintf("style%d", i), 4)
+		style := w.knob(fmt.Sprintf("style%d", i), 5)
 		prog := w.program(fmt.Sprintf("p%d", i+1), func(r *rand.Rand) []Cmd {
 			g := defaultGenCfg(i + 1)
 			g.keys = []string{"k1", "k2"}
 			var p []Cmd
 			nc := 2 + r.Intn(5)
+			if style == 4 {
+				nc = 100 + r.Intn(120) // one long pipeline: the log buffer grows to tens of KB between flushes
+			}
 			for j := 0; j < nc; j++ {
 				var c Cmd
-				switch r.Intn(6) {
-				case 0:
+				switch r.Intn(12) {
+				case 0, 1:
 					c = Cmd{Args: []string{"FSET", "k1", pick(r, g.freeIDs), "f1", fmt.Sprint(g.uniq())}}
-				case 1:
+				case 2, 3:
 					c = Cmd{Args: []string{"DEL", "k1", pick(r, g.freeIDs)}}
-				case 2:
+				case 4, 5:
 					c = Cmd{Args: []string{"GET", "k1", pick(r, g.freeIDs)}}
+				case 6:
+					// values of several sizes around the buffer sizes a write path may care about
+					sz := []int{3000, 9000, 11000, 20000, 70000}[r.Intn(5)]
+					c = Cmd{Args: []string{"SET", pick(r, g.keys), pick(r, g.freeIDs), "STRING", fmt.Sprintf("v%d-", g.uniq()) + strings.Repeat("x", sz)}}
 				default:
 					c = Cmd{Args: []string{"SET", pick(r, g.keys), pick(r, g.freeIDs), "POINT", g.lat(r), g.lon(r)}}
 				}
-				if style == 1 || (style == 2 && r.Intn(2) == 0) {
+				if style == 1 || style == 4 || (style == 2 && r.Intn(2) == 0) {
 					c.Pipe = true
 				}
 				p = append(p, c)
@@ -151,7 +158,7 @@ func runC08(w *World) {
 			return p
 		})
 		a := w.addActor(n, simAddr(fmt.Sprintf("127.0.0.1:%d", 50001+i)), prog)
-		a.sendTogether = style == 3 && w.knob(fmt.Sprintf("together%d", i), 2) == 1
+		a.sendTogether = (style == 3 || style == 4) && w.knob(fmt.Sprintf("together%d", i), 2) == 1
 	}
 	allDone := func() bool {
 		for _, a := range w.actors {
